@@ -43,6 +43,12 @@ import (
 //	    C:<dotted.key>=<value>  content of a ./config.yaml in the working directory.  It is the default file:
 //	       read when nothing is selected, a decoy when another file is selected (when the selected file IS
 //	       ./config.yaml the F:/Q: items are its content and C: items are dropped)
+//	    Z:<dotted.path>  the selected file mentions this SECTION or LEAF with no entry (all children commented out:
+//	       YAML/JSON null), e.g. Z:db.postgres writes "db:\n  postgres:\n".  A null section or leaf contributes no
+//	       value: the environment, else the default, decides (F:/Q: items below a Z: section win: it is then no
+//	       longer null)
+//	    R:<n>  a repetition tag without meaning: the same sources again in another fresh process (behaviour that
+//	       depends on Go's map iteration order differs from run to run)
 //	    T:<relative path>=<empty|dir>  something that EXISTS in the working directory of the process (an empty
 //	       file or a directory), e.g. at db.sqlite.file_path; the model's file system oracle answers "found"
 //	       for exactly these paths
@@ -320,6 +326,8 @@ func (n *yamlNode) writeJSON(b *strings.Builder, indent string) {
 		fmt.Fprintf(b, "%s  %s: ", indent, strconv.Quote(name))
 		if k.kids != nil {
 			k.writeJSON(b, indent+"  ")
+		} else if k.leaf == "" {
+			b.WriteString("null")
 		} else {
 			b.WriteString(k.leaf)
 		}
@@ -436,6 +444,12 @@ func c20Load(dir string, items []c20Item, types map[string]string) string {
 			if selExt == "" {
 				selExt = it.name
 			}
+		case "Z":
+			if it.name == "" || seenF[it.name] {
+				continue
+			}
+			root.put(strings.Split(it.name, "."), "")
+			haveFile = true
 		case "T":
 			if it.name == "" || filepath.IsAbs(it.name) || strings.Contains(it.name, "..") {
 				continue
@@ -1141,6 +1155,109 @@ func runC20(c *Ctx) error {
 			add("blank-env:every-section+all-file", "load;"+strings.Join(blankSecs, ";")+";"+fileAll)
 			add("blank-env:every-section+all-file:cwd", "load;"+strings.Join(blankSecs, ";")+";"+fileAll+";A:cwd")
 			add("blank-env:prefix-only", "load;E:BHS_=;E:BHS=;"+fileAll)
+		}
+		// NULL SECTIONS AND LEAVES in the selected file (a section whose children are all commented out): they
+		// contribute no value - the section's keys come from the environment, else the default, and other file
+		// entries stay in force.  Every case three times in fresh processes (the old defect depended on map order).
+		{
+			nd := func(k c20Key) string {
+				switch k.Type {
+				case "bool":
+					if k.Default == "true" {
+						return "false"
+					}
+					return "true"
+				case "int":
+					return "4321"
+				case "uint16":
+					return "6543"
+				case "duration":
+					return "1m30s"
+				case "enum":
+					return c20Pool(k, false)[0]
+				}
+				if k.Key == "logging.level" {
+					return "warn"
+				}
+				return "verif-A"
+			}
+			var secs []string
+			seenS := map[string]bool{}
+			for _, k := range keys {
+				parts := strings.Split(k.Key, ".")
+				for i := 1; i < len(parts); i++ {
+					if sec := strings.Join(parts[:i], "."); !seenS[sec] {
+						seenS[sec] = true
+						secs = append(secs, sec)
+					}
+				}
+			}
+			reps := c.Pick(3, 6)
+			addR := func(class, in string) {
+				for r := 1; r <= reps; r++ {
+					add(class, fmt.Sprintf("%s;R:%d", in, r))
+				}
+			}
+			var allZ, allE []string
+			for _, k := range keys {
+				allE = append(allE, "E:"+c20EnvName(k.Key)+"="+nd(k))
+			}
+			for _, sec := range secs {
+				allZ = append(allZ, "Z:"+sec)
+				var secE, outF []string
+				for _, k := range keys {
+					if strings.HasPrefix(k.Key, sec+".") {
+						secE = append(secE, "E:"+c20EnvName(k.Key)+"="+nd(k))
+					} else if len(outF) < 3 && !strings.HasPrefix(sec, strings.Split(k.Key, ".")[0]) {
+						outF = append(outF, "F:"+k.Key+"="+nd(k))
+					}
+				}
+				z := "load;Z:" + sec
+				addR("null-section:default", z)
+				addR("null-section:section-env", z+";"+strings.Join(secE, ";"))
+				addR("null-section:one-env", z+";"+secE[0])
+				addR("null-section:one-env", z+";"+secE[len(secE)-1])
+				addR("null-section:section-env+other-file", z+";"+strings.Join(secE, ";")+";"+strings.Join(outF, ";"))
+				addR("null-section:other-file", z+";"+strings.Join(outF, ";"))
+				addR("null-section:section-env:json", z+";"+strings.Join(secE, ";")+";X:json;A:long")
+				addR("null-section:section-env:cwd", z+";"+strings.Join(secE, ";")+";A:cwd")
+				if i := strings.LastIndex(sec, "."); i > 0 { // nested: a sibling entry of the parent in the file
+					for _, k := range keys {
+						if strings.HasPrefix(k.Key, sec[:i]+".") && !strings.HasPrefix(k.Key, sec+".") && strings.Count(k.Key, ".") == strings.Count(sec, ".") {
+							addR("null-section:nested+parent-entry", z+";F:"+k.Key+"="+nd(k)+";"+strings.Join(secE, ";"))
+							break
+						}
+					}
+				}
+			}
+			// the reported shape: db: {engine: sqlite, postgres: null}, metrics: null
+			addR("null-section:reported", "load;F:db.engine=sqlite;Z:db.postgres;Z:metrics;E:BHS_DB_POSTGRES_HOST=verif-A;E:BHS_DB_POSTGRES_PORT=6543;E:BHS_METRICS_ENABLED=true")
+			var leafSecs []string // null sections that are not above one another
+			for _, sec := range secs {
+				top := true
+				for _, o := range secs {
+					if strings.HasPrefix(o, sec+".") {
+						top = false
+					}
+				}
+				if top {
+					leafSecs = append(leafSecs, "Z:"+sec)
+				}
+			}
+			addR("null-section:every-section+all-env", "load;"+strings.Join(leafSecs, ";")+";"+strings.Join(allE, ";"))
+			addR("null-section:every-section", "load;"+strings.Join(leafSecs, ";"))
+			seenT := map[string]bool{}
+			for i, k := range keys { // null LEAVES
+				if !th && seenT[k.Type] && i != len(keys)-1 {
+					continue
+				}
+				seenT[k.Type] = true
+				o := keys[(i+1)%len(keys)]
+				addR("null-leaf:default", "load;Z:"+k.Key)
+				addR("null-leaf:env", "load;Z:"+k.Key+";E:"+c20EnvName(k.Key)+"="+nd(k))
+				addR("null-leaf:env+neighbour-file", "load;Z:"+k.Key+";E:"+c20EnvName(k.Key)+"="+nd(k)+";F:"+o.Key+"="+nd(o))
+				addR("null-leaf:neighbour-env", "load;Z:"+k.Key+";E:"+c20EnvName(o.Key)+"="+nd(o))
+			}
 		}
 		// WHAT LOAD REFUSES beyond ill-typed values: a resolved logging.level zerolog.ParseLevel does not know - from the
 		// file and from the environment, with the sibling logging keys set from file / environment (they must
